@@ -62,6 +62,10 @@ func (p *Program) TypeExpr(id int) string {
 		return "func(n int) int"
 	case KAnon:
 		return "struct{ V uint64 }"
+	case KTwinA:
+		return "ma.U"
+	case KTwinB:
+		return "mb.U"
 	case KExt:
 		return fmt.Sprintf("hb.X%d", id)
 	case KExtPtr:
@@ -202,6 +206,8 @@ func (p *Program) typeDecls(b *strings.Builder) {
 			fmt.Fprintf(b, "func mkT%d(v uint64) interface{} {\n\tif v == 0 {\n\t\treturn nil\n\t}\n\treturn v\n}\nfunc unT%d(x any) uint64 {\n\tv, _ := x.(uint64)\n\treturn v\n}\n\n", id, id)
 		case KFuncT:
 			fmt.Fprintf(b, "func mkT%d(v uint64) func(n int) int {\n\tif v == 0 {\n\t\treturn nil\n\t}\n\treturn func(n int) int { return int(v) + n }\n}\nfunc unT%d(x func(int) int) uint64 {\n\tif x == nil {\n\t\treturn 0\n\t}\n\treturn uint64(x(0))\n}\n\n", id, id)
+		case KTwinA, KTwinB:
+			fmt.Fprintf(b, "func mkT%d(v uint64) %s { return %s{V: v} }\nfunc unT%d(x %s) uint64 { return x.V }\n\n", id, te, te, id, te)
 		case KAlias:
 			fmt.Fprintf(b, "type T%d struct {\n\tV uint64\n\tS string\n}\n\ntype A%d = T%d\n\nfunc mkT%d(v uint64) %s { return T%d{V: v} }\nfunc unT%d(x A%d) uint64 { return x.V }\n\n", id, id, id, id, te, id, id, id)
 		case KAnon:
@@ -327,6 +333,15 @@ func (pr *printer) wp(expr, poison string) string {
 	}
 	pr.site++
 	return name
+}
+
+func (p *Program) hasKind(k TKind) bool {
+	for id := 1; id < len(p.Types); id++ {
+		if p.Types[id] == k {
+			return true
+		}
+	}
+	return false
 }
 
 func (pr *printer) concArg() string {
@@ -614,6 +629,13 @@ func (p *Program) Files(base string) map[string]string {
 	}
 	out := map[string]string{"p.go": main}
 	p.constFiles(out)
+	// two packages of one name, each with a type of one name
+	if p.hasKind(KTwinA) {
+		out["ta/model/m.go"] = "// Package model (a): one of two packages named model.\npackage model\n\ntype U struct{ V uint64 }\n"
+	}
+	if p.hasKind(KTwinB) {
+		out["tb/model/m.go"] = "// Package model (b): one of two packages named model.\npackage model\n\ntype U struct{ V uint64 }\n"
+	}
 	if pr.helper.Len() == 0 {
 		return out
 	}
@@ -817,6 +839,12 @@ func (pr *printer) source() string {
 				break
 			}
 		}
+	}
+	if p.hasKind(KTwinA) {
+		fmt.Fprintf(&b, "\tma \"%s/ta/model\"\n", p.Base)
+	}
+	if p.hasKind(KTwinB) {
+		fmt.Fprintf(&b, "\tmb \"%s/tb/model\"\n", p.Base)
 	}
 	b.WriteString("\t\"vg/rt\"\n)\n\n")
 	b.WriteString("var _ = context.Background\n\n")
